@@ -65,7 +65,7 @@ Definition tmap (w : world) (o : op) : option (nat * (vec -> vec)) :=
 Definition target (o : op) : option nat :=
   match o with
   | OTranslate i _ | ORotate i _ _ | OScale i _ _ | OScaleXYZ i _ _ _ _ | ONormalize i _ | OFit i | OToOrigin i
-  | OFlatten i _ | OSet i _ _ | OEdit i _ _ _ | OAttrSet i _ _ _ | OAttrEdit i _ _ _ _ | OElemEdit i _ _ _ => Some i
+  | OFlatten i _ | OSet i _ _ | OEdit i _ _ _ | OAttrSet i _ _ _ | OAttrEdit i _ _ _ _ | OElemEdit i _ _ _ | OGrow i _ _ _ _ _ => Some i
   | _ => None
   end.
 
@@ -313,6 +313,16 @@ Proof.
     destruct (wf_nth _ _ _ Hwf (get_mesh_nth _ _ _ Em)) as [Hnd Hal].
     exists m, so, (with_elem so which k el), (wmem w), (ocells so).
     repeat split; auto using get_mesh_nth; try lia. destruct which as [|[|?]]; reflexivity.
+  - (* OGrow *)
+    right. cbn [step] in Hs. destruct (get_mesh w m) as [so|] eqn:Em; [|discriminate].
+    destruct (alloc1 (wmem w) v) as [m1 c] eqn:E. inversion Hs; subst; clear Hs.
+    apply (alloc1_spec O) in E as (Hc & Hn & Hv & Hf). destruct (wf_nth _ _ _ Hwf (get_mesh_nth _ _ _ Em)) as [Hnd Hal].
+    exists m, so, (grown so c ne nf ce ca), m1, (ocells so ++ [c]). repeat split; auto using get_mesh_nth.
+    + apply Hf.
+    + apply NoDup_app_ranges with (k := mnext (wmem w)); auto; repeat constructor; auto; lia.
+    + apply Forall_app. split; [eapply Forall_allocated_mono; eauto|]. repeat constructor. unfold allocated. lia.
+    + intros c' Hc' _. now apply Hf.
+    + intros c' Hc'. apply in_app_or in Hc' as [Hc'|[<-|[]]]; auto. right. unfold allocated. lia.
 Qed.
 
 (* ---------------------------------------------------------------- the invariant *)
